@@ -1,10 +1,69 @@
-(* C06 — hard-kill consistency of persisted metadata.  Property theorems only. *)
+(* C06 — hard-kill consistency of persisted metadata.  Property theorems only.
+   Model: model/Meta.v (every schedule of request micro-steps, Notify goroutines, persist
+   steps, SIGKILLs and restarts).  Proofs: proofs/MetaProofs.v. *)
 From Coq Require Import List NArith Bool Arith.
 From NSQV Require Import model.Judge model.Names model.Meta proofs.MetaProofs.
 Import ListNotations.
 Open Scope nat_scope.
 
-Theorem C06_protocol_order : forall tmp,
-  persist_ops tmp = [FOpen tmp; FWrite tmp; FFsync tmp; FClose tmp; FRename tmp].
-Proof. exact persist_ops_shape. Qed.
-Print Assumptions C06_protocol_order.
+(* At every instant of every schedule -- a kill may fall between any two steps, also inside
+   the write and during the start-up persist; any number of restart cycles -- nsqd.dat is
+   absent or a completely written and fsynced document (it is only ever produced by the
+   rename of such a temp file), no restart ever finds an undecodable file, the topic set
+   of the document is the set of non-ephemeral topics of a live state the daemon passed
+   through, and each entry is the persisted form of that topic in a live state the daemon
+   passed through. *)
+Theorem C06_atomic : forall evs,
+  let s := run init evs in
+  broken s = false /\
+  (dat (fs s) = None \/
+   exists c, dat (fs s) = Some c /\ complete c = true /\ f_synced c = true /\ from_hist (hist s) (f_doc c)).
+Proof. exact atomic_all. Qed.
+Print Assumptions C06_atomic.
+
+(* Whenever the daemon is idle (no request in progress, no Notify goroutine pending, no
+   persist running), nsqd.dat is exactly the persisted form of the live state: every
+   completed creation is in it, every completed deletion is not.  All interleavings. *)
+Theorem C06_idle_full : forall evs,
+  let s := run init evs in
+  idle s ->
+  exists c, dat (fs s) = Some c /\ complete c = true /\ f_synced c = true /\ f_doc c = snapshot (live_ s).
+Proof. exact idle_full. Qed.
+Print Assumptions C06_idle_full.
+
+(* ------------------------------------------------------------------ non-vacuity *)
+Definition P8 : list ev := repeat (EPersist 4096%N) 8.
+Definition steps (i : N) (n : nat) : list ev := repeat (EStep i) n.
+Definition tname : name := [116%N].
+(* create t ; idle ; delete t with the Notify persist running BEFORE the map removal
+   (the schedule of the old finding F6) ; idle *)
+Definition f6_schedule : list ev :=
+  [ERestart] ++ P8 ++ [EStart 1%N (OCreateTopic tname)] ++ steps 1%N 4 ++ [ETask] ++ P8
+  ++ [EStart 2%N (ODeleteTopic tname)] ++ steps 2%N 2 ++ [ETask] ++ P8
+  ++ steps 2%N 3 ++ P8 ++ steps 2%N 2.
+
+Example C06_witness_idle_after_create :
+  let s := run init ([ERestart] ++ P8 ++ [EStart 1%N (OCreateTopic tname)] ++ steps 1%N 4 ++ [ETask] ++ P8) in
+  idle s /\ option_map f_doc (dat (fs s)) = Some [mkDT tname false []] /\ acks s = [(1%N, 200%N)].
+Proof. vm_compute. repeat split; reflexivity. Qed.
+
+Example C06_witness_F6_now :
+  let s := run init f6_schedule in
+  idle s /\ live_ s = [] /\ option_map f_doc (dat (fs s)) = Some [] /\ length (hist s) = 5.
+Proof. vm_compute. repeat split; reflexivity. Qed.
+
+(* the same schedule on the code before fix d8e666b (no persist after the removal): the
+   daemon is idle, the topic is gone, and the file still lists it *)
+Example C06_witness_F6_old :
+  let s := run_old init f6_schedule in
+  idle s /\ live_ s = [] /\ option_map f_doc (dat (fs s)) = Some [mkDT tname false []].
+Proof. vm_compute. repeat split; reflexivity. Qed.
+
+(* a kill inside the write leaves a partial temp file and an intact nsqd.dat *)
+Example C06_witness_kill_in_write :
+  let s := run init ([ERestart] ++ P8 ++ [EStart 1%N (OCreateTopic tname)] ++ steps 1%N 4 ++ [ETask]
+                     ++ [EPersist 0%N; EPersist 7%N; EPersist 0%N; EKill; ERestart] ++ P8) in
+  idle s /\ map t_name (live_ s) = [] /\
+  option_map f_doc (dat (fs s)) = Some [] /\
+  map (fun x => (f_written (snd x), complete (snd x))) (tmps (fs s)) = [(1, false)].
+Proof. vm_compute. repeat split; reflexivity. Qed.
